@@ -56,6 +56,11 @@ func (rs *requestStream) Read(p []byte) (int, error) {
 		if rs.chunkLeft == 0 {
 			chunkSize, err := parseChunkSize(rs.reader)
 			if err != nil {
+				if err == io.EOF {
+					// The body ends with a chunk of size zero, not with
+					// the connection.
+					err = io.ErrUnexpectedEOF
+				}
 				return 0, err
 			}
 			if chunkSize == 0 {
